@@ -171,7 +171,7 @@ func genTWCCHand(j job, tier string, emit func(caseDesc) bool) {
 				}
 				base := j.Start + uint16(off)
 				f1 := sp.finish(base, 7, 1)
-				f2 := sp.finish(base+1, 9, 2)
+				f2 := sp.finish(base+1, 70000, 2) // a reference time whose microsecond value exceeds 32 bits (71.6 minutes)
 				steps := []step{{S: histories[j.Hist]}, fbStep(f1.encode(), f1.note()), fbStep(f2.encode(), f2.note())}
 				if histories[j.Hist] == "" {
 					steps = steps[1:]
@@ -459,8 +459,8 @@ func seqAlphabet(start uint16) []step {
 	f5 := tw(1, 3, 7, rl(symSD, 5))
 	f6 := tw(-2, 8, 8, v1("10110010000000"))
 	f7 := tw(4, 2, 9, rl(symLD, 2))
-	f8 := tw(-2, 9, 10, v2("sssssss"), v2("ss-----"))
-	f9 := tw(2, 2, 11, rl(symNR, 6))
+	f8 := tw(-2, 9, 1<<20, v2("sssssss"), v2("ss-----"))
+	f9 := tw(2, 2, 0xFFFFFF, rl(symNR, 6)) // the largest 24-bit reference time
 	g1 := cf(0x00020000, blk(ssrcA, 0, 3, 0))
 	g2 := cf(0x00030000, blk(ssrcA, 1, 3, 5), blk(ssrcB, 0, 2, 1))
 	g3 := cf(0x00040000, blk(ssrcB, -1, 3, 2))
